@@ -191,3 +191,28 @@ def subset_reproducible(c):
     b, ib = make_subset_data(im, pixels=k, return_selection=True, seed=seed)
     c.ensures("same-seed-same-selection", list(ia) == list(ib) and np.array_equal(a.values, b.values))
     c.ensures("distinct-pixels", len(set(ia)) == k and all(0 <= v < 30 for v in ia))
+
+
+@contract("C07", "pointwise_handoff", [IF + "ImageFormation._transform_to_desired_coordinates", IF + "ImageFormation._get_field_from",
+                                       IF + "get_wavevec_from"])
+def pointwise_handoff(c):
+    """the position handed to the kernel for a detector location is a function of that location, the particle centre and the
+    wavevector only: k*(x - cx), k*(y - cy), k*(cz - z) - whatever else is on the detector (the transformation code is elementwise,
+    so one generic location stands for every location of a detector of any size)"""
+    x, y, z = c.real("x", sample=(-3, 3)), c.real("y", sample=(-3, 3)), c.real("z", sample=(-1, 1))
+    ox, oy = c.real("other_x", sample=(-3, 3)), c.real("other_y", sample=(-3, 3))
+    sph = _sphere(c)
+    th = AbstractPointTheory(coordinates='cartesian')
+    kw = _kw(c, th)
+    A = (lambda v: np.array(v, dtype=object if c.symbolic else float))
+    alone = detector_points(x=A([x]), y=A([y]), z=A([z]))
+    among = detector_points(x=A([ox, x]), y=A([oy, y]), z=A([0 * z, z]))
+    h1 = c.call(calc_holo, alone, sph, **kw)
+    h2 = c.call(calc_holo, among, sph, **kw)
+    k = 2 * c.pi * kw['medium_index'] / kw['illum_wavelen']
+    cen = sph.center
+    want = A([k * (x - cen[0]), k * (y - cen[1]), k * (cen[2] - z)])
+    c.ensures("position-formula", c.eq(th.calls[0]['pos'][:, 0], want))
+    c.ensures("independent-of-the-other-locations", c.eq(th.calls[1]['pos'][:, 1], want))
+    c.ensures("same-value", c.eq(h2.values[1], h1.values[0]))
+    c.canary("particle-position-ignored", c.eq(th.calls[0]['pos'][:, 0], A([k * x, k * y, -k * z])))
